@@ -34,7 +34,16 @@ pub trait Engine: Sync {
     fn meta(&self, prop: &str) -> PropMeta;
     /// Optional scenario-aware minimiser hints: fields that must not be touched.
     fn minimise(&self, case: &Case, sig: &str) -> Case {
-        crate::minimise::minimise(case, sig, &|c| self.exec(c, false))
+        crate::minimise::minimise(case, sig, &|c| crate::run::guarded(|| self.exec(c, false)).unwrap_or_default())
+    }
+}
+
+/// Runs the engine; a panic that escapes the scenario's own guards is a defect of the harness
+/// and is reported as such (exit 2), never as a violation of the property.
+pub fn safe_exec(engine: &dyn Engine, case: &Case, keep_log: bool) -> RunResult {
+    match crate::run::guarded(|| engine.exec(case, keep_log)) {
+        Ok(r) => r,
+        Err((loc, msg)) => RunResult { violation: Some(Violation::new("harness-error", "harness", crate::run::normalise_site(&loc), msg)), evals: 1, ..Default::default() },
     }
 }
 
@@ -118,7 +127,7 @@ fn worker(engine: &dyn Engine, prop: &str, tier: &str, master: u64, start: u64, 
         let case = gen_at(engine, prop, &plan, idx, master);
         let want_sample = sample_sent < 2;
         let mut case = case;
-        let res = engine.exec(&case, want_sample);
+        let res = safe_exec(engine, &case, want_sample);
         batch.runs += 1;
         batch.evals += res.evals;
         batch.distinct_sub += res.distinct_sub;
@@ -492,7 +501,15 @@ pub fn check(engine: &dyn Engine, prop: &str, tier: &str) -> i32 {
     let known = load_known();
     let mut known_hit: BTreeMap<String, (String, u64)> = BTreeMap::new();
     let mut fresh: BTreeMap<String, Found> = BTreeMap::new();
+    let mut harness_errors = 0usize;
     for f in found {
+        if f.violation.class == "harness-error" {
+            harness_errors += 1;
+            if harness_errors <= 3 {
+                println!("# HARNESS-ERROR: run {} panicked inside the harness at {}: {}", f.idx, f.violation.site, f.violation.detail);
+            }
+            continue;
+        }
         if let Some(k) = match_known(&known, prop, &f.case, &f.violation) {
             let e = known_hit.entry(k.id.clone()).or_insert((k.what.clone(), 0));
             e.1 += 1;
@@ -573,10 +590,11 @@ pub fn check(engine: &dyn Engine, prop: &str, tier: &str) -> i32 {
         return 2;
     }
     println!(
-        "# {prop} {tier}: runs={} nontrivial={} distinct={} steps={} violations={} known={} wall={:.1}s",
+        "# {prop} {tier}: runs={} evaluations={} nontrivial_runs={} distinct={} steps={} violations={} known={} wall={:.1}s",
         agg.runs,
+        agg.evals,
         agg.nontrivial,
-        digests.len(),
+        digests.len() as u64 + agg.distinct_sub,
         agg.steps,
         confirmed,
         known_hit.len(),
@@ -590,7 +608,7 @@ pub fn check(engine: &dyn Engine, prop: &str, tier: &str) -> i32 {
     }
     if confirmed > 0 {
         1
-    } else if unconfirmed > 0 {
+    } else if unconfirmed > 0 || harness_errors > 0 {
         2
     } else {
         0
@@ -616,7 +634,7 @@ fn exec_case_child(engine: &dyn Engine, path: &str) -> i32 {
             return 2;
         }
     };
-    let res = engine.exec(&rf.case, true);
+    let res = safe_exec(engine, &rf.case, true);
     println!("R {}", serde_json::to_string(&res).unwrap());
     0
 }
@@ -733,7 +751,7 @@ pub fn main(engine: &dyn Engine) -> ! {
             // run <prop> <tier> <idx>: execute one run in this process and print the result
             let plan = engine.plan(&args[2], &args[3]);
             let c = gen_at(engine, &args[2], &plan, args[4].parse().unwrap(), master_seed());
-            let r = engine.exec(&c, true);
+            let r = safe_exec(engine, &c, true);
             println!("{}", serde_json::to_string_pretty(&c).unwrap());
             println!("{}", serde_json::to_string_pretty(&r).unwrap());
             0
